@@ -21,7 +21,7 @@ CHECKS = {
  "C06": ("exploration", "runtime monitoring: byte-level monitor - every dirtied slab is encoded after every operation and the register is split with an independent CBOR decoder; equality with the reported size incl. the exact compact-map saving; batch-built and byte-converted containers, wide-parent cases (more than 256 inlined children per slab), composite values with up to 34 fields, long and many type infos",
          "Reported sizes are compared by EQUALITY with the bytes actually written for every dirtied slab after every operation and for every register at commits, including the two documented savings computed exactly.",
          "Trusts the fxamacker/cbor stream decoder for splitting items. Histories are sampled.", "DESIGN.md §4 C06"),
- "C07": ("exploration", "runtime monitoring: round-trip monitor - decode/re-encode byte identity, decoded-vs-live content comparison and independently computed header-flag truth for every dirtied slab and every committed register; batch-built and byte-converted containers, wide-parent cases, composite values with up to 34 fields, long and many type infos",
+ "C07": ("exploration", "runtime monitoring: round-trip monitor - decode/re-encode byte identity, decoded-vs-live content comparison and independently computed header-flag truth for every dirtied slab and every committed register; batch-built and byte-converted containers, wide-parent cases (more than 256 inlined children; 26-70 type infos shared pairwise by inlined arrays and maps), composite values with up to 34 fields, long and many type infos",
          "Every slab state produced by the workloads is encoded, decoded, re-encoded and compared byte-for-byte and field-by-field; head flags are recomputed from content; in-repo serialization verifiers run as secondary oracle.",
          "Only version-1 registers are produced by the library. Slab states are those reached by sampled histories.", "DESIGN.md §4 C07"),
  "C08": ("exploration", "runtime monitoring: differential schedules - one history executed under 6 schedules of commit / drop-cache / reopen with model comparison in each and byte-equality of final registers across schedules; schedule-independence of the tree shape; wide-parent cases",
@@ -39,7 +39,7 @@ CHECKS = {
  "C12": ("exploration", "runtime monitoring: reference-model monitor under an adversarial 4-level digester (all 256 alphabet profiles) with an executable prediction of every collision-limit refusal + no-trace check via storage proxy",
          "All 4^4 per-level digest alphabets x limits; every insert of a new key is predicted by the limit rule and refusals must be typed fatal errors that leave no trace; dictionary semantics and group structure checked after every operation.",
          "Nested maps use the default digester; only 4-level digesters. Histories are sampled.", "DESIGN.md §4 C12"),
- "C13": ("exploration", "runtime monitoring: enumeration monitor - every iterator flavour (callback functions and iterator objects incl. mixed Next/NextKey/NextValue and calls after the end, on roots and nested containers) compared element-by-element with the model's canonical order, mutation during mutable iteration, partial-load subsequence check and reverse pop on cold copies",
+ "C13": ("exploration", "runtime monitoring: enumeration monitor - every iterator flavour (callback functions and iterator objects incl. mixed Next/NextKey/NextValue and calls after the end, on roots and nested containers) compared element-by-element with the model's canonical order, mutation during mutable iteration, each full-enumeration flavour alone on a cold / half-loaded storage of its own, partial-load subsequence check and reverse pop on cold copies",
          "At checkpoints of seeded histories every enumeration flavour, all/boundary ranges, invalid ranges, in-iteration overwrite and child mutation, partial loads and reverse bulk pop are compared with the order computed from the model (digest vector, then insertion sequence).",
          "Insert/remove during mutable iteration is documented unsupported and not generated. States are sampled.", "DESIGN.md §4 C13"),
  "C14": ("fault_enumeration", "runtime monitoring with fault injection at the ledger proxy: every write/delete position of every commit failed in turn (both failure modes, retry now / later, pairs), compared with a fault-free twin; bounded-progress oracle (two-stage limit) for a faulted commit that never returns",
@@ -48,7 +48,7 @@ CHECKS = {
  "C15": ("exploration", "runtime monitoring: online checker of a three-layer overlay specification after every storage call with unique-version slabs; thorough = closure over the abstract state space of the real object",
          "Immutable unique-version slabs make every read identify the write it observed; all observations are compared with a ledger/cache/write-set model after every step of random walks incl. injected commit faults; thorough explores the abstract state space of the real object to closure (exhaustive for 3 ids).",
          "is-loaded asserted exactly only for documented transitions; cache-level observations after an ambiguous (applied-but-failed) ledger write are not asserted.", "DESIGN.md §4 C15"),
- "C17": ("exploration", "runtime monitoring: reference-model + structural + byte-level + reachability monitors on bulk-built / copied / converted values, then a divergence phase with the other value re-checked after every step",
+ "C17": ("exploration", "runtime monitoring: reference-model + structural + byte-level + reachability monitors on bulk-built / copied / converted values, a large batch build grown by 2000 operations in the same storage session, then a divergence phase with the other value re-checked after every step",
          "Batch builds over many lengths and size profiles, the copy matrix with the predicate computed from the model, and byte conversions around the fast-path boundary; each result is fully verified, then mutated/disposed independently of its source.",
          "Lengths and profiles are sampled (not all lengths).", "DESIGN.md §4 C17"),
  "C18": ("fault_enumeration", "runtime monitoring: typed-error table + no-trace check via storage proxy + twin run without the rejected requests (register byte-equality) + enumeration of every callback/ledger-read failure position of cold lookups",
@@ -57,7 +57,7 @@ CHECKS = {
  "C20": ("fault_enumeration", "runtime monitoring: corruption enumeration - every slab x {delete referenced, add unreferenced, double reference, foreign owner} x {ledger level, storage API uncommitted/committed} against CheckStorageHealth; GetAllChildReferences vs independent walk; temporary-address roots",
          "For storages from valid histories the health check must accept (warm with pending writes, after commit, fresh+preloaded) and return the true roots, and must reject every enumerated single-slab corruption in every modality; the child-reference query is compared as multisets with an independent walk.",
          "Storages over 70 slabs are sampled keeping every reference kind; index->child references are not byte-patchable for the foreign-owner kind.", "DESIGN.md §4 C20"),
- "C04": ("exploration", "runtime monitoring: replica differential - the same history re-executed under varied worker counts, GOMAXPROCS, ledger-call jitter, object-pool state and in different OS processes; ordered commit write logs and registers compared; ascending-order monitor on every deterministic commit; the other commit flavour on the same history (registers and per-commit write multisets equal); direct vs. LedgerBaseStorage access path",
+ "C04": ("exploration", "runtime monitoring: replica differential - the same history re-executed under varied worker counts, GOMAXPROCS, ledger-call jitter, object-pool state and in different OS processes; ordered commit write logs and registers compared; ascending-order monitor on every deterministic commit; the other commit flavour on the same history (registers and per-commit write multisets equal); direct vs. LedgerBaseStorage access path; pool probe (many-worker commit vs single-goroutine encoding) after commits that failed inside element / type-info encoding",
          "Every history runs as 6-9 replicas across 2-3 worker processes; the sequence (deterministic commit) or multiset (relaxed commit) of ledger writes with content hashes, the final registers and map seeds must be identical; each deterministic commit log must be strictly ascending in (owner, index).",
          "Schedules, map iteration orders and processes are sampled by repetition, not enumerated.", "DESIGN.md §4 C04"),
  "C16": ("exploration", "sanitizer + differential twin: Go race detector build (every report is a violation) over parallel commit / preload / error-path scenarios with injected jitter inside caller callbacks, each compared with a sequential re-implementation; concurrent independent clients compared with their solo runs; bounded-progress oracle (two-stage limit) for faulted commits / preloads that never return",
